@@ -388,14 +388,25 @@ func runC07(args []string) int {
 	for i := 0; i < n/3+5; i++ {
 		var ls []string
 		nfc := 0
+		// dense stratum: 2-5 file-level comments drawn over a pool of TWO match strings (file/disable, live and expired
+		// file/snooze mixed in every order), so that several comments target the same check with mixed kinds and expiry
+		dense := r.Intn(2) == 0
+		pool := []string{pick(r, c07Names), pick(r, c07Names) + "(x)"}
 		fc := func() {
 			name := c07Spelling(r, pick(r, c07Names), pick(r, c07Names)+"(x)", nil)
+			if dense && r.Intn(10) < 7 {
+				name = pick(r, pool)
+			}
 			ls = append(ls, pick(r, []string{"# pint file/disable " + name, "# pint file/snooze 2099-01-01 " + name, "# pint file/snooze 2000-01-01 " + name,
 				"# pint file/snooze 2099-11-28T10:24:18Z " + name, "# pint file/disable promql/series", "# pint file/owner bob", "# pint file/disable",
 				"  # pint file/disable " + name + "  "}))
 			nfc++
 		}
-		for k := r.Intn(3); k > 0; k-- {
+		k0 := r.Intn(3)
+		if dense {
+			k0 = 2 + r.Intn(4)
+		}
+		for k := k0; k > 0; k-- {
 			fc()
 		}
 		ls = append(ls, "groups:", "- name: g", "  rules:")
@@ -410,6 +421,12 @@ func runC07(args []string) int {
 				fc()
 				ls = append(ls, "# pint ignore/end")
 			}
+		}
+		if dense {
+			for k := r.Intn(3); k > 0; k-- { // ... also after the rules
+				fc()
+			}
+			rep.hist("file:dense-file-level-comments")
 		}
 		content := strings.Join(ls, "\n") + "\n"
 		dis, _ := discovery.VerifReadRules(content, true)
